@@ -184,9 +184,9 @@ func checkC05(c c05Cell) error {
 	}
 	switch c.Opt {
 	case "true":
-		cfgCut.Update = boolp(true)
+		cfgCut.Update = vhBoolp(true)
 	case "false":
-		cfgCut.Update = boolp(false)
+		cfgCut.Update = vhBoolp(false)
 	}
 	inRun := false
 	alpha := func(cutValue string, withCut bool, cfgForCut Cfg) *Node {
@@ -197,7 +197,7 @@ func checkC05(c c05Cell) error {
 		if withCut {
 			if c.FailedBefore && inRun {
 				// (only in the run of the cell: a snapshot that was never recorded, addressed through Update(false))
-				n.Steps = append(n.Steps, Step{Op: "call", API: "snap", Cfg: Cfg{Dir: strp(dir), Filename: "neverrecorded", Update: boolp(false)}, Value: "x", Tag: "failing_first"})
+				n.Steps = append(n.Steps, Step{Op: "call", API: "snap", Cfg: Cfg{Dir: strp(dir), Filename: "neverrecorded", Update: vhBoolp(false)}, Value: "x", Tag: "failing_first"})
 			}
 			n.Steps = append(n.Steps, Step{Op: "call", API: c.API, Cfg: cfgForCut, Value: cutValue, Tag: "cut"})
 		}
@@ -223,7 +223,7 @@ func checkC05(c c05Cell) error {
 		}}
 	}
 	if _, out, err := runProgram(RunOpts{Pkg: "."}, prep); err != nil {
-		return fmt.Errorf("preparation run: %v (%s)", err, clip(out))
+		return fmt.Errorf("preparation run: %v (%s)", err, vhClip(out))
 	}
 	multiRel := filepath.Join("snaps", "f.snap"+c.Ext)
 	cutMulti := c.API == "snap" || c.API == "json" || c.API == "yaml"
@@ -274,7 +274,7 @@ func checkC05(c c05Cell) error {
 	}
 	res, out, err := runProgram(RunOpts{Pkg: ".", CI: c.CI, CIEnv: c.CIEnv, Cwd: cwd, Upd: c.Upd, UpdSet: c.Upd != unsetEnv, Shuffle: c.Shuffle}, run)
 	if err != nil {
-		return fmt.Errorf("run: %v (%s)", err, clip(out))
+		return fmt.Errorf("run: %v (%s)", err, vhClip(out))
 	}
 	d1 := snapDir(root)
 	e := expectC05(c)
@@ -336,7 +336,7 @@ func checkC05(c c05Cell) error {
 				touched = true
 			}
 			if e.sorts {
-				sort.SliceStable(want, func(i, j int) bool { return naturalCmp(want[i].ID, want[j].ID) < 0 })
+				sort.SliceStable(want, func(i, j int) bool { return vhNaturalCmp(want[i].ID, want[j].ID) < 0 })
 				touched = true
 			}
 			if len(want) != len(post) {
@@ -462,9 +462,9 @@ func classifyC05(c c05Cell) ([]string, bool) {
 }
 
 func TestC05_ModeTable(t *testing.T) {
-	seed, _ := strconv.Atoi(getenv("VERIF_SEED", "1"))
-	nshards, _ := strconv.Atoi(getenv("VERIF_NSHARDS", "1"))
-	shard, _ := strconv.Atoi(getenv("VERIF_SHARD", "0"))
+	seed, _ := strconv.Atoi(vhGetenv("VERIF_SEED", "1"))
+	nshards, _ := strconv.Atoi(vhGetenv("VERIF_NSHARDS", "1"))
+	shard, _ := strconv.Atoi(vhGetenv("VERIF_SHARD", "0"))
 	reps := 1
 	if tierThorough() {
 		reps = 3
@@ -539,9 +539,9 @@ func checkC05Sparse(c c05Sparse) error {
 	}
 	switch c.Opt {
 	case "true":
-		cfg.Update = boolp(true)
+		cfg.Update = vhBoolp(true)
 	case "false":
-		cfg.Update = boolp(false)
+		cfg.Update = vhBoolp(false)
 	}
 	multiRel := filepath.Join("snaps", "f.snap"+c.Ext)
 	cutRel := multiRel
@@ -569,7 +569,7 @@ func checkC05Sparse(c c05Sparse) error {
 	run := Scenario{Tests: map[string]*Node{"TestAlpha": {Steps: []Step{{Op: "call", API: c.API, Cfg: cfg, Value: c.Val, Tag: "cut"}}}}, Clean: CleanSpec{Call: true, Sort: c.Sort}}
 	res, out, err := runProgram(RunOpts{Pkg: ".", CI: c.CI, Upd: c.Upd, UpdSet: c.Upd != unsetEnv}, run)
 	if err != nil {
-		return fmt.Errorf("run: %v (%s)", err, clip(out))
+		return fmt.Errorf("run: %v (%s)", err, vhClip(out))
 	}
 	d1 := snapDir(root)
 	want := "failed"
@@ -602,7 +602,7 @@ func checkC05Sparse(c c05Sparse) error {
 				wantEntries = append(wantEntries, Entry{ID: "TestAlpha - 1", Body: "\x00new"})
 			}
 			if c.Sort {
-				sort.SliceStable(wantEntries, func(i, j int) bool { return naturalCmp(wantEntries[i].ID, wantEntries[j].ID) < 0 })
+				sort.SliceStable(wantEntries, func(i, j int) bool { return vhNaturalCmp(wantEntries[i].ID, wantEntries[j].ID) < 0 })
 			}
 			if !exists {
 				if len(wantEntries) == 0 {
@@ -657,9 +657,9 @@ func classifyC05Sparse(c c05Sparse) ([]string, bool) {
 }
 
 func TestC05_SparseStates(t *testing.T) {
-	seed, _ := strconv.Atoi(getenv("VERIF_SEED", "1"))
-	nshards, _ := strconv.Atoi(getenv("VERIF_NSHARDS", "1"))
-	shard, _ := strconv.Atoi(getenv("VERIF_SHARD", "0"))
+	seed, _ := strconv.Atoi(vhGetenv("VERIF_SEED", "1"))
+	nshards, _ := strconv.Atoi(vhGetenv("VERIF_NSHARDS", "1"))
+	shard, _ := strconv.Atoi(vhGetenv("VERIF_SHARD", "0"))
 	p := prop[c05Sparse]{property: "C05", check: checkC05Sparse, classify: classifyC05Sparse}
 	p.enumerate(t, func(yield func(c05Sparse) bool) {
 		for i, c := range allC05Sparse(seed) {
